@@ -64,7 +64,14 @@ class BaseMilstein(base_solver.BaseSDESolver, metaclass=abc.ABCMeta):
             y0_prime = y0 + self.y_prime_f_factor(dt, f) + g_ * sqrt_dt
             g_prime = self.sde.g(t0, y0_prime)
             g_prod_I_k = self.sde.prod(g, I_k)
-            gdg_prod = self.sde.prod(g_prime - g, v) / (2 * sqrt_dt)
+            if self.sde_type == SDE_TYPES.stratonovich:
+                # In the Stratonovich case `v` does not have mean zero, so the O(sqrt(dt)) error of a forward difference
+                # would enter the mean of the local error at order dt^1.5 and reduce the strong order to 0.5. Use a
+                # central difference instead.
+                g_prime_minus = self.sde.g(t0, y0 - g_ * sqrt_dt)
+                gdg_prod = self.sde.prod(g_prime - g_prime_minus, v) / (4 * sqrt_dt)
+            else:
+                gdg_prod = self.sde.prod(g_prime - g, v) / (2 * sqrt_dt)
         else:
             f = self.sde.f(t0, y0)
             g_prod_I_k, gdg_prod = self.sde.g_prod_and_gdg_prod(t0, y0, I_k, 0.5 * v)
